@@ -14,6 +14,31 @@ from sa.model import AnalysisError, Repo  # noqa: E402
 from sa.report import Ctx, finish  # noqa: E402
 
 
+def control_run(ctx) -> None:
+    """Thorough tier: the control run.  Positive controls (an edit that breaks a rule,
+    applied to a scratch copy) must make that rule fire; negative controls
+    (behaviour-preserving rewrites) must add no finding.  A control that fails means the
+    machinery is not live / is brittle on this tree: ANALYSIS-ERROR, never a silent pass."""
+    from sa.selftest import controls_for_property
+
+    base = {o.fkey for o in ctx.obs if not o.ok}
+    res = controls_for_property(ctx.prop, str(ctx.repo.root), base, jobs=min(16, os.cpu_count() or 4))
+    ctx.rule("CTRL+", "positive controls: an edit that breaks a rule makes exactly that rule fire (scratch copy, parsed only)", minimum=0)
+    ctx.rule("CTRL-", "negative controls: behaviour-preserving rewrites add no finding", minimum=0)
+    failed = []
+    for name, kind, verdict, note in res:
+        if verdict == "skipped":
+            ctx.note(f"control not applicable on this tree: {name}")
+            continue
+        ctx.ob("CTRL+" if kind == "positive" else "CTRL-", f"control|{name}", True, nontrivial=True)
+        if verdict != "pass":
+            failed.append(f"{name}: {note}")
+    ctx.extra["controls"] = {"positive": sum(1 for r in res if r[1] == "positive" and r[2] == "pass"), "negative": sum(1 for r in res if r[1] == "negative" and r[2] == "pass"),
+                             "skipped": sum(1 for r in res if r[2] == "skipped"), "failed": failed}
+    if failed:
+        raise AnalysisError("control run failed (the checker is not live or is brittle on this tree): " + " || ".join(failed[:3]))
+
+
 def main() -> int:
     ap = argparse.ArgumentParser()
     ap.add_argument("prop")
@@ -35,6 +60,8 @@ def main() -> int:
         repo = Repo(a.repo)
         ctx = Ctx(prop, a.tier, repo, seed)
         mod.run(ctx)
+        if a.tier == "thorough" and not a.replay:
+            control_run(ctx)
         if a.replay:
             want = json.loads(pathlib.Path(a.replay).read_text())
             k = (want.get("rule"), want.get("key"))
